@@ -864,7 +864,7 @@ class TorConfig:
                     v = self.__dict__['_defaults'].get(
                         real_name, [] if is_list else DEFAULT_VALUE
                     )
-                    if not is_list and v != DEFAULT_VALUE:
+                    if v != DEFAULT_VALUE and not isinstance(v, list):
                         v = parser.parse(v)
                 else:
                     v = parser.parse(v)
@@ -1109,7 +1109,7 @@ class TorConfig:
                     parsed = defaults.get(rn, [])
                     if not isinstance(parsed, list):
                         # a default with a single line
-                        parsed = [parsed]
+                        parsed = self.parsers[rn].parse(parsed)
                 self.config[rn] = _ListWrapper(
                     parsed, functools.partial(self.mark_unsaved, rn))
 
